@@ -9,7 +9,9 @@ import (
 	"context"
 	"fmt"
 	"google.golang.org/genproto/googleapis/api/serviceconfig"
+	"google.golang.org/protobuf/types/descriptorpb"
 	"net/http"
+	"sort"
 	"sync"
 	"sync/atomic"
 
@@ -53,9 +55,9 @@ func with(r *annotations.HttpRule, adds ...*annotations.HttpRule) *annotations.H
 // them requested after every step.
 func files() []*vschema.File {
 	return []*vschema.File{
-		{Path: "vf/rsa.proto", Pkg: "vf.rs", Services: []vschema.Service{{Name: "A", Methods: []vschema.Method{
-			{Name: "Get", In: "vf.Req", Out: "vf.Rsp", Rule: with(get("/rs/a/{a}"), get("/rs/alt/{a}/{n}"), post("/rs/a", "*"), get("/rs/x/{a}"))},
-			{Name: "Put", In: "vf.Req", Out: "vf.Rsp", Rule: post("/rs/put", "*")},
+		{Path: "vf/rsa.proto", Pkg: "vf.rs", Messages: aReq(1), Services: []vschema.Service{{Name: "A", Methods: []vschema.Method{
+			{Name: "Get", In: "vf.rs.AReq", Out: "vf.Rsp", Rule: with(get("/rs/a/{a}"), get("/rs/alt/{a}/{n}"), post("/rs/a", "*"), get("/rs/x/{a}"), get("/rs/ab/{a}/{b}"))},
+			{Name: "Put", In: "vf.rs.AReq", Out: "vf.Rsp", Rule: post("/rs/put", "*")},
 		}}}},
 		{Path: "vf/rsb.proto", Pkg: "vf.rs", Services: []vschema.Service{{Name: "B", Methods: []vschema.Method{
 			{Name: "Get", In: "vf.Req", Out: "vf.Rsp", Rule: with(get("/rs/b/{a}"), get("/rs/b2/{a}/{n}"), post("/rs/b", "*"))},
@@ -66,12 +68,27 @@ func files() []*vschema.File {
 	}
 }
 
+// aReq is service A's own request message. Revision 2 (served by b4) is
+// wire-compatible but declares a new field in the middle, so the same field
+// NUMBERS sit at other POSITIONS: a=1, b=2, n=3 in both; rev 2 declares
+// c=4 between a and b.
+func aReq(rev int) []*descriptorpb.DescriptorProto {
+	name := "AReq"
+	m := &descriptorpb.DescriptorProto{Name: &name}
+	m.Field = append(m.Field, vschema.StrField("a", 1))
+	if rev == 2 {
+		m.Field = append(m.Field, vschema.StrField("c", 4))
+	}
+	m.Field = append(m.Field, vschema.StrField("b", 2), vschema.I64Field("n", 3))
+	return []*descriptorpb.DescriptorProto{m}
+}
+
 // filesV2 is the newer revision of service A that back-end b4 serves
 // (version skew between replicas): Get announces one more binding.
 func filesV2() *vschema.File {
-	return &vschema.File{Path: "vf/rsa.proto", Pkg: "vf.rs", Services: []vschema.Service{{Name: "A", Methods: []vschema.Method{
-		{Name: "Get", In: "vf.Req", Out: "vf.Rsp", Rule: with(get("/rs/a/{a}"), get("/rs/alt/{a}/{n}"), post("/rs/a", "*"), get("/rs/x/{a}"), get("/rs/v2/{a}"))},
-		{Name: "Put", In: "vf.Req", Out: "vf.Rsp", Rule: post("/rs/put", "*")},
+	return &vschema.File{Path: "vf/rsa.proto", Pkg: "vf.rs", Messages: aReq(2), Services: []vschema.Service{{Name: "A", Methods: []vschema.Method{
+		{Name: "Get", In: "vf.rs.AReq", Out: "vf.Rsp", Rule: with(get("/rs/a/{a}"), get("/rs/alt/{a}/{n}"), post("/rs/a", "*"), get("/rs/x/{a}"), get("/rs/ab/{a}/{b}"), get("/rs/v2/{a}"))},
+		{Name: "Put", In: "vf.rs.AReq", Out: "vf.Rsp", Rule: post("/rs/put", "*")},
 	}}}}
 }
 
@@ -112,6 +129,21 @@ func (t tagged) Unary(ctx context.Context, md protoreflect.MethodDescriptor, in 
 	r := out.ProtoReflect()
 	r.Set(md.Output().Fields().ByName("tag"), protoreflect.ValueOfString(t.tag))
 	r.Set(md.Output().Fields().ByName("method"), protoreflect.ValueOfString(vschema.FullMethod(md)))
+	// what arrived: every set scalar field of the request as name=value
+	var got []string
+	in.ProtoReflect().Range(func(fd protoreflect.FieldDescriptor, v protoreflect.Value) bool {
+		if fd.Message() == nil && !fd.IsList() && !fd.IsMap() {
+			got = append(got, fmt.Sprintf("%s=%v", fd.Name(), v.Interface()))
+		}
+		return true
+	})
+	sort.Strings(got)
+	if items := md.Output().Fields().ByName("items"); items != nil && items.IsList() {
+		l := r.Mutable(items).List()
+		for _, g := range got {
+			l.Append(protoreflect.ValueOfString(g))
+		}
+	}
 	return out, nil
 }
 
